@@ -92,3 +92,16 @@ def run_src(case):
                 'events': p.events}
     return {'events': p.events, 'outcome': outcome(m.cpu), 'status': st, 'ticks': n,
             'stack': len(m.cpu.stack)}
+
+
+def dispatch(case):
+    """['fmt', case] | ['stack', cells] | ['src', case]: all suites of C19 in
+    one worker pass"""
+    kind, c = case
+    if kind == 'fmt':
+        return fmt_values(c)
+    if kind == 'stack':
+        return exec_print(c)
+    if kind == 'src':
+        return run_src(c)
+    raise ValueError(kind)
